@@ -77,6 +77,26 @@ def _returns_if(stmt, needles):
     return any(isinstance(s, ast.Return) for s in stmt.body)
 
 
+def _probe_rearm(kind, cyclic):
+    """'always' / 'never' are read off the syntax; a guarded re-arm is decided by EXECUTING the real Task.defer on a
+    completed join execution triggered by a new task, in a definition where the join is / is not on a cycle
+    (harness.suites.C04.probe_defer; the same probe is the correspondence check of Model/JoinLife.on_trigger)."""
+    if kind == 'always':
+        return True
+    if kind == 'never':
+        return False
+    try:
+        from harness.suites import C04
+        effs = set(C04.probe_defer(st, cyclic) for st in ('SUCCESS', 'ERROR', 'CANCELLED'))
+    except Exception as e:
+        raise TranslateError('cannot probe Task.defer: %s: %s' % (type(e).__name__, e))
+    if effs == {'rearm'}:
+        return True
+    if effs == {'keep'}:
+        return False
+    raise TranslateError('Task.defer treats completed join executions non-uniformly: %s' % sorted(effs))
+
+
 def _defer_facts(tree):
     fn = _func(tree, 'defer', 'Task')
     creates = _calls(fn, 'self._create_task_execution')
@@ -108,13 +128,40 @@ def _defer_facts(tree):
                 if not guarded:
                     create_at = -1
         recheck = reread_at is not None and create_at is not None and create_at > reread_at >= 0
+    # what happens to an existing execution found under the lock: `elif <test>: self.set_state(states.WAITING, ...)`
+    rearm = ('never', None)
+    for w, _nm in withs:
+        for st in ast.walk(w):
+            if isinstance(st, ast.If) and _calls(ast.Module(body=st.body, type_ignores=[]), 'self._create_task_execution'):
+                for e in st.orelse:
+                    if not isinstance(e, ast.If):
+                        if _calls(e, 'self.set_state'):
+                            rearm = ('always', 'else')
+                        continue
+                    if not _calls(ast.Module(body=e.body, type_ignores=[]), 'self.set_state'):
+                        raise TranslateError('Task.defer: unrecognised branch for an existing execution: %s' % _src(e.test))
+                    if e.orelse:
+                        raise TranslateError('Task.defer: unrecognised else-branch for an existing execution')
+                    t = e.test
+                    base = ('states.is_completed(self.task_ex.state)', 'self.task_ex.state != states.WAITING')
+                    if _src(t) in base:
+                        rearm = ('always', _src(t))
+                    elif isinstance(t, ast.BoolOp) and isinstance(t.op, ast.And) and _src(t.values[0]) in base:
+                        rearm = ('guarded', _src(t))
+                    else:
+                        raise TranslateError('Task.defer: unrecognised test for an existing execution: %s' % _src(t))
     fast = False
     for st in fn.body:
         if isinstance(st, ast.With):
             break
         if _returns_if(st, ['self.task_ex']):
             fast = True
-    return {'defer_locked': locked, 'defer_recheck': recheck, 'defer_fast_check': fast}
+    return {'defer_locked': locked, 'defer_recheck': recheck, 'defer_fast_check': fast,
+            # a trigger arriving after the join execution completed puts it back to WAITING:
+            #   in a workflow where the join is not on a cycle / where it is (a guarded re-arm is taken to be
+            #   the cycle test; the correspondence suite runs the real Task.defer on both kinds of definitions)
+            'defer_rearm_acyclic': _probe_rearm(rearm[0], False),
+            'defer_rearm_cyclic': _probe_rearm(rearm[0], True)}
 
 
 def _refresh_facts(tree):
